@@ -74,10 +74,25 @@ fn decode(mut b: &[u8]) -> Option<Vec<Obj>> {
             }
             _ => return None,
         };
+        if (g, v) == (1, 1) {
+            // packed bits: consumed, not interpreted here
+            let bytes = (count + 7) / 8;
+            if b.len() < bytes {
+                return None;
+            }
+            b = &b[bytes..];
+            res.push(Obj::Other);
+            continue;
+        }
         let size = match (g, v) {
             (1, 2) => 1,
             (2, 1) => 1,
             (30, 1) => 5,
+            (30, 2) => 3,
+            (30, 3) => 4,
+            (30, 4) => 2,
+            (30, 5) => 5,
+            (30, 6) => 9,
             (32, 1) => 5,
             (12, 1) => 11,
             (41, 1) => 5,
@@ -170,6 +185,8 @@ pub fn check(hdr: &str, lines: &[String], trace: &[(String, Vec<String>)], mon: 
     let mut last_request: Option<Vec<u8>> = None;
     let mut last_read: Option<Vec<u8>> = None;
     let mut in_sol_wait = false;
+    let mut last_sol_fin = true;
+    let mut d19_static = false;
     let mut outstanding_unsol: Vec<u64> = Vec::new();
     let mut outstanding_sol: Vec<u64> = Vec::new();
 
@@ -293,6 +310,11 @@ pub fn check(hdr: &str, lines: &[String], trace: &[(String, Vec<String>)], mon: 
             "cut" => {
                 series = None;
                 session += 1;
+                // D19 (static half): a disconnect during a multi-fragment series leaves the rest of the
+                // selection queued; it is written into the next session's first response
+                if in_sol_wait && !last_sol_fin {
+                    d19_static = true;
+                }
             }
             _ => {}
         }
@@ -578,7 +600,7 @@ pub fn check(hdr: &str, lines: &[String], trace: &[(String, Vec<String>)], mon: 
                         s.next_seq = (seq + 1) & 0x0F;
                         if fin {
                             if s.valid && s.got != s.want {
-                                fail(mon, hdr, "series_covers_exactly_once_snapshot", "", &format!("op {k}: static objects {} reported, {} expected (first difference at {:?})", s.got.len(), s.want.len(), s.got.iter().zip(s.want.iter()).position(|(a, b)| a != b)));
+                                fail(mon, hdr, "series_covers_exactly_once_snapshot", if d19_static { "D19" } else { "" }, &format!("op {k}: static objects {} reported, {} expected (first difference at {:?})", s.got.len(), s.want.len(), s.got.iter().zip(s.want.iter()).position(|(a, b)| a != b)));
                             }
                             series = None;
                         }
@@ -593,6 +615,9 @@ pub fn check(hdr: &str, lines: &[String], trace: &[(String, Vec<String>)], mon: 
                 outstanding_sol.clear();
             }
             carried_of.insert(b.clone(), carried.clone());
+            if !uns {
+                last_sol_fin = b[0] & 0x40 != 0;
+            }
             txs.push(TxRec { session, uns, seq: b[0] & 0x0F, carried });
             sent.insert(b.clone());
         }
@@ -683,6 +708,7 @@ fn expected_static(mut o: &[u8], bins: &BTreeMap<u16, (u8, u8)>, ans: &BTreeMap<
                 }
             }
             (60, 2) | (60, 3) | (60, 4) | (2, _) | (32, _) => {}
+            (1, 1) | (30, 2) | (30, 3) | (30, 4) | (30, 5) | (30, 6) => return None,
             (1, 0) | (1, 2) => {
                 for (i, (_, img)) in bins {
                     if in_range(*i) {
